@@ -206,6 +206,27 @@ def run(ctx):
     seq = [n_ for n_ in names if n_ in ('__builtin_va_start', '__builtin_va_end', 'string_vprintf')]
     ctx.check(seq == ['__builtin_va_start', 'string_vprintf', '__builtin_va_end'], R, 'string_printf|va-pairing', spf, 'va_start; string_vprintf; va_end', 'string_printf call sequence is %s' % seq)
 
+    # a va_list may be consumed once per activation: a second formatter call needs its own va_copy
+    nva = 0
+    for f in u.functions:
+        if body_of(f) is None or f.get('name') not in ('string_vprintf', 'string_printf'):
+            continue   # scope: the narrow-string formatter the property names (wstring_vprintf / the colour escapes are not part of C08)
+        cons = va_list_consumptions(f)
+        for vid, sites in sorted(cons.items()):
+            nva += 1
+            clash = None
+            for i, a in enumerate(sites):
+                for b in sites[i:]:
+                    if may_follow(a, b):
+                        clash = (a, b)
+                        break
+                if clash:
+                    break
+            nmv = (u.by_id.get(vid) or {}).get('name', '?')
+            ctx.check(clash is None, R, '%s|va_list-consumed-once|%s' % (f.get('name'), nmv), clash[1] if clash else f, '%d use(s) of the va_list, at most one per path' % len(sites),
+                      '`%s` is consumed by `%s` and may then be consumed again by `%s` without a va_copy: the second formatter reads indeterminate arguments' % (nmv, src_text(clash[0], 50) if clash else '', src_text(clash[1], 50) if clash else ''))
+    ctx.require(nva >= 2, 'va_list consumers string_vprintf / string_printf not found')
+
     # ---- R4
     R = 'C08-R4'
     thrower = {'split_args': u, 'split_context': u}
